@@ -999,7 +999,7 @@ func (cr *caseRun) topo(f []string) (bool, bool) {
 		g.nodes = append(g.nodes, gnode{kind: 'o', ar: 1})
 	case len(f) == 3 && f[0] == "node" && (f[1] == "m" || f[1] == "j"):
 		k, ok := atoi(f[2])
-		if !ok || k > 6 {
+		if !ok || k > 62 {
 			return true, false
 		}
 		g.nodes = append(g.nodes, gnode{kind: f[1][0], ar: k})
